@@ -11,6 +11,7 @@ import (
 	"sort"
 	"strings"
 
+	"github.com/ohler55/ojg"
 	"github.com/ohler55/ojg/alt"
 	"github.com/ohler55/ojg/gen"
 )
@@ -134,7 +135,10 @@ func HasArray(v any) bool  { return hasKind(v, true) }
 func HasObject(v any) bool { return hasKind(v, false) }
 
 // ToGen converts the tree with alt.Generify (C18 checks that conversion).
-func ToGen(v any) gen.Node { return alt.Generify(v) }
+// null members are kept (the alt package drops them by default).
+func ToGen(v any) gen.Node { return alt.Generify(v, &genKeepNil) }
+
+var genKeepNil = func() ojg.Options { o := ojg.DefaultOptions; o.OmitNil = false; return o }()
 
 var anyType = reflect.TypeOf((*any)(nil)).Elem()
 
